@@ -14,7 +14,7 @@ def plan(tier, seed):
     p.modules.append(("yuvxyb-math/src/matrix.rs", open(os.path.join(os.path.dirname(__file__), "..", "harness", "math_stub.rs")).read()))
     p.modules.append(("src/yuv.rs", open(os.path.join(os.path.dirname(__file__), "..", "harness", "yuv_unchecked.rs")).read()))
     p.modules.append(("yuvxyb-math/src/lib.rs", open(os.path.join(os.path.dirname(__file__), "..", "harness", "math_stub_lib.rs")).read()))
-    wcfgs = w_instances(tier, seed + 1)
+    wcfgs = w_instances(tier, seed + 1, light=True)
     if tier != "thorough":
         wcfgs = wcfgs[::2]
 
@@ -60,7 +60,7 @@ def plan(tier, seed):
                 for q in Y.glue_c08(consts, mc, bd, full):
                     res = q.run(cross=(bd in (8, 16)), timeout=300)
                     if res["status"] == "sat":
-                        res["replay"] = {"reproduced": None, "detail": "glue model is real-valued; see lemma counterexamples"}
+                        res["replay"] = Y.replay_glue(ctx, q, res, "c08", mc, bd, full)
                     out.append(res)
         return out
     p.late = late
